@@ -118,7 +118,7 @@ def run(ctx):
             if ok:
                 en = [bi for bi, t in virt if t['name'].endswith('_enabled')][0]
                 evb = [bi for bi, t in virt if not t['name'].endswith('_enabled')][0]
-                enexpr = f.call_expr(en)
+                enexpr = f.call_val(en)
                 gate = f.gate_edges(lambda d, v, vals: d == enexpr and (v is None and vals == [0] or (v is not None and v != 0)))
                 off = f.must_pass(gate, [evb])
                 if off:
